@@ -457,19 +457,25 @@ class ConditionLike:
                 try:
                     spec_val = valida.datapath.DataPath.from_spec(spec_val)
                 except MalformedDataPathSpec:
-                    # Check values for DataPath specs:
+                    # Check values for DataPath specs (building a new mapping of arguments):
+                    new_items = {}
                     for k, v in spec_val.items():
                         try:
-                            spec_val[k] = valida.datapath.DataPath.from_spec(v)
+                            v = valida.datapath.DataPath.from_spec(v)
                         except MalformedDataPathSpec:
                             pass
+                        new_items[k] = v
+                    spec_val = new_items
             elif isinstance(spec_val, (list, tuple)):
-                # Check items for DataPath specs:
-                for idx, v in enumerate(spec_val):
+                # Check items for DataPath specs (building a new list/tuple of arguments):
+                new_items = []
+                for v in spec_val:
                     try:
-                        spec_val[idx] = valida.datapath.DataPath.from_spec(v)
+                        v = valida.datapath.DataPath.from_spec(v)
                     except MalformedDataPathSpec:
                         pass
+                    new_items.append(v)
+                spec_val = type(spec_val)(new_items)
 
             # invoke the condition method to construct the Condition object:
 
